@@ -184,7 +184,21 @@ def gen_cases(ctx, pe, rng, n):
             raise RuntimeError('injected processor failure')
           target.process = raising
         n0, s0, e0 = len(pe.rec.sent), len(pe.stored), len(errlog.errors)
-        pe.events.metricReceived(name, (float(100 + q), value))
+        dup = (not fail_at) and rng.random() < 0.3
+        if dup:
+          # the daemon's pickle listener receives a frame that carries this datapoint twice (two equal samples of one
+          # second): both go through the pipeline
+          import pickle as _pickle
+          import struct as _struct
+          from twisted.internet.testing import StringTransport as _ST
+          import carbon.protocols as _protocols
+          payload = _pickle.dumps([(name, (float(100 + q), value)), (name, (float(100 + q), value))], protocol=2)
+          r = _protocols.MetricPickleReceiver()
+          r.makeConnection(_ST())
+          r.dataReceived(_struct.pack('!L', len(payload)) + payload)
+          pe.state.connectedMetricReceiverProtocols.discard(r)
+        else:
+          pe.events.metricReceived(name, (float(100 + q), value))
         if fail_at:
           if saved is None:
             del target.process
@@ -192,9 +206,16 @@ def gen_cases(ctx, pe, rng, n):
             target.process = saved
         sink = [m for m, dp in pe.rec.sent[n0:]] + [m for m, dp in pe.stored[s0:]]
         altered = [1 for m, dp in pe.rec.sent[n0:] + pe.stored[s0:] if dp != (float(100 + q), value)]
+        dup_bad = 0
+        if dup:
+          h = len(sink) // 2
+          nfed = sum(1 for nm2, mb in pe.buffers.BufferManager.buffers.items() for ib in mb.interval_buffers.values() for v in ib.values if v == value)
+          if len(sink) % 2 or sink[:h] != sink[h:] or nfed != 2 * len(pe.fed(value)):
+            dup_bad = 1
+          sink = sink[:h]
         rec = dict(base)
         rec.update(name=idx[name], failAt=fail_at, gen=0, sink=[idx.get(m, 0) for m in sink], buf=[idx.get(a, 0) for a in pe.fed(value)],
-                   errs=len(errlog.errors) - e0, altered=len(altered))
+                   errs=len(errlog.errors) - e0, altered=len(altered), dup_bad=dup_bad)
         rec['text'] = dict(base['text'], name=name, failing_processor=fail_at, delivered=sink)
         recs.append(rec)
         ctx.evaluations += 1
@@ -204,7 +225,7 @@ def gen_cases(ctx, pe, rng, n):
       pe.events.metricGenerated(gname, (100.0, 7.0))
       sink = [m for m, dp in pe.rec.sent[n0:]] + [m for m, dp in pe.stored[s0:]]
       rec = dict(base)
-      rec.update(name=idx[gname], failAt=0, gen=idx[gname], sink=[idx.get(m, 0) for m in sink], buf=[], errs=0, altered=0)
+      rec.update(name=idx[gname], failAt=0, gen=idx[gname], sink=[idx.get(m, 0) for m in sink], buf=[], errs=0, altered=0, dup_bad=0)
       rec['text'] = dict(base['text'], generated=gname, delivered=sink)
       recs.append(rec)
       ctx.evaluations += 1
